@@ -208,3 +208,46 @@ Print Assumptions C07_source_no_suspension_between_read_and_send.
 Theorem C07_source_sends_flushed_at_once : sends_flushed sk_send_data = true.
 Proof. exact source_sends_flushed_at_once. Qed.
 Print Assumptions C07_source_sends_flushed_at_once.
+
+(* (10) the connection around the senders (Model/FlowSend.v, `conn`): the transport's own paused
+   state, frames queued in h2 by Stream.reset_nowait() while write_ready is clear, the flush of
+   Connection.resume_writing, and the transport pausing AGAIN from inside that flush (ResumeP).
+   Every history of the connection is a history of the sender system, so (1)-(8) hold along it *)
+Theorem C07_connection_histories_are_sender_histories :
+  forall cfg cw iw mf c, creachable cfg cw iw mf c -> reachable cfg cw iw mf (core c).
+Proof. exact creachable_core. Qed.
+Print Assumptions C07_connection_histories_are_sender_histories.
+
+(* write_ready is set exactly when the transport is not paused -- in particular after a resume that
+   re-paused inside its own flush the flag is CLEAR -- and frames stay queued only while paused *)
+Theorem C07_write_ready_tracks_transport :
+  forall cfg cw iw mf c, creachable cfg cw iw mf c ->
+  wready (core c) = negb (tpaused c) /\ (hq c = true -> tpaused c = true).
+Proof. exact write_ready_tracks_transport. Qed.
+Print Assumptions C07_write_ready_tracks_transport.
+
+(* back-pressure stated on the TRANSPORT's state: while it is paused a sender emits at most the one
+   chunk it had already been woken for ... *)
+Theorem C07_paused_transport_suspends_sending :
+  forall cfg cw iw mf c i s1 out1 s2 out2,
+  creachable cfg cw iw mf c -> tpaused c = true ->
+  step (core c) (Run i) = (s1, out1) -> step s1 (Run i) = (s2, out2) -> out1 = [] \/ out2 = [].
+Proof. exact paused_transport_suspends. Qed.
+Print Assumptions C07_paused_transport_suspends_sending.
+
+(* ... and a credit-starved sender that is granted credit while the transport is paused writes
+   nothing: it is woken, reaches the loop top and suspends on write_ready *)
+Theorem C07_credit_on_paused_transport_writes_nothing :
+  forall cfg cw iw mf c i x s1 out1,
+  creachable cfg cw iw mf c -> tpaused c = true -> broken (core c) = false ->
+  nth_error (senders (core c)) i = Some x -> s_pc x = Top ->
+  step (core c) (Run i) = (s1, out1) ->
+  out1 = [] /\ nth_error (senders s1) i = Some (with_pc x WaitWrite).
+Proof. exact starved_sender_on_paused_transport. Qed.
+Print Assumptions C07_credit_on_paused_transport_writes_nothing.
+
+(* the FIFO run on the connection executed by the correspondence is a history of the connection *)
+Theorem C07_cfifo_is_a_history :
+  forall budget c, WT c -> exists ops, crun c ops = cfifo budget c.
+Proof. exact cfifo_is_history. Qed.
+Print Assumptions C07_cfifo_is_a_history.
